@@ -1256,7 +1256,10 @@ class FileStorage(
         try:
             # (inside the try, so that a failure clears _pack_is_in_progress)
             if os.path.exists(oldpath):
-                os.remove(oldpath)
+                try:
+                    os.remove(oldpath)
+                except FileNotFoundError:
+                    pass  # the pack before this one has just removed it
             if self.blob_dir and os.path.exists(self.blob_dir + ".old"):
                 remove_committed_dir(self.blob_dir + ".old")
 
@@ -1309,7 +1312,10 @@ class FileStorage(
                 self._pack_is_in_progress = False
 
         if not self.pack_keep_old:
-            os.remove(oldpath)
+            try:
+                os.remove(oldpath)
+            except FileNotFoundError:
+                pass  # a pack that started meanwhile has removed it already
 
         with self._lock:
             self._save_index()
